@@ -116,7 +116,7 @@ pub fn check_note(l0: &Lib, ext: &str, key: &str) -> Option<String> {
                     if kind == EXTRACT {
                         let new_key = created[0];
                         let src1 = l1.get(key).cloned().unwrap_or_default();
-                        let ref_line = src1.lines().position(|l| l.contains(&format!("]({}", Key::from_file_name(new_key).to_rel_link_url(&dir))) && l.starts_with('['));
+                        let ref_line = src1.lines().position(|l| l.contains(&format!("]({}", md::rel_url(new_key, &dir))) && l.starts_with('['));
                         if let Some(rl) = ref_line {
                             if is_first_subsection(&text0, line as usize) {
                                 let server1 = act::server(&l1, ext, false);
@@ -238,7 +238,7 @@ pub fn run(ctx: &Ctx, model: &mut Model, rep: &mut Report) {
         // references to the other notes, to a missing note, to the note itself, before any heading
         let main = if lib[2].1.len() > lib[0].1.len() { 2 } else { 0 };
         let dir = Key::from_file_name(&lib[main].0).parent();
-        let rel = |k: &str| Key::from_file_name(k).to_rel_link_url(&dir);
+        let rel = |k: &str| md::rel_url(k, &dir);
         match r.below(7) {
             0 => lib[main].1 = format!("[top]({})\n\n{}", rel("b"), lib[main].1),
             1 => {
@@ -252,7 +252,7 @@ pub fn run(ctx: &Ctx, model: &mut Model, rep: &mut Report) {
                 // inlining it has to re-write those references relative to the host
                 let (target, near, far) = if main == 0 { (3, "d/x", "b") } else { (1, "a", "d/y") };
                 let tdir = Key::from_file_name(&lib[target].0).parent();
-                let trel = |k: &str| Key::from_file_name(k).to_rel_link_url(&tdir);
+                let trel = |k: &str| md::rel_url(k, &tdir);
                 let add = format!("\n## refs\n\n[near]({})\n\n[far]({})\n", trel(near), trel(far));
                 lib[target].1.push_str(&add);
                 let t = lib[target].0.clone();
